@@ -35,9 +35,25 @@ def apply(dst, subs):
         open(p, "w").write(t[:idx] + new + t[idx + len(old):])
     return None
 
+def seed_mutants():
+    """every kept seeded change, run against the check of its own property"""
+    import json, glob
+    out = []
+    for d in sorted(glob.glob(os.path.join(VERIF, "seeded", "*", "meta.json"))):
+        name = os.path.basename(os.path.dirname(d))
+        m = json.load(open(d))
+        pid = m.get("property", name[:3])
+        out.append(("seed-" + name, pid, os.path.join("..", "seeded", name, "patch.diff"), "fire", pid + "-"))
+    return out
+
+
 def main():
     want = sys.argv[1:]
-    todo = [m for m in MUTANTS if not want or any(w in m[0] for w in want)]
+    pool = MUTANTS
+    if want and want[0] == "--seeds":
+        pool = seed_mutants()
+        want = want[1:]
+    todo = [m for m in pool if not want or any(w in m[0] for w in want)]
     res = []
     t0 = time.time()
     for name, pid, subs, expect, rule in todo:
